@@ -51,6 +51,8 @@ CLIENTS = {
     'tb': [('text', '"m1"'), ('bytes', b'\x02')],
     'tt': [('text', '"m1"'), ('text', '"m2"')],
     'empty': [('none', None)],
+    'b2': [('bytes2', b'\x01m2')],
+    't2b2': [('text2', '"m1"'), ('bytes2', b'\x02')],
 }
 
 
@@ -63,6 +65,13 @@ class Env:
                 ev['text'] = payload
             elif kind == 'bytes':
                 ev['bytes'] = payload
+            elif kind == 'text2':
+                # the other legal shape of the same event: both keys present, the unused one None
+                ev['text'] = payload
+                ev['bytes'] = None
+            elif kind == 'bytes2':
+                ev['bytes'] = payload
+                ev['text'] = None
             else:
                 ev['text'] = None
                 ev['bytes'] = None
@@ -165,7 +174,7 @@ def monitor(env, spec):
 class Model:
     def __init__(self, client, disc_code, spec, pre_accepted=False):
         self.st = 'acc' if pre_accepted else 'hs'              # hs | acc | closed
-        self.queue = list(client)
+        self.queue = [(k.rstrip('2'), p) for k, p in client]    # 'text2'/'bytes2': same message, other event shape
         self.disc_code = disc_code if disc_code is not None else 1005
         self.client_seen_gone = False    # application has been told (a receive raised)
         self.spec = spec
@@ -235,7 +244,7 @@ class Model:
                 return {('ok', json.loads(payload))}
             if kind == 'none':
                 return {('exc', 'PayloadTypeError')}
-            return {('any', None)}      # binary media needs msgpack, which is not installed here
+            return {('ok', ('bin', payload))}      # the registered binary media handler (msgpack is not installed here)
         raise AssertionError(name)
 
     def finish(self, how, gone, cfg):
@@ -265,10 +274,19 @@ class AppError(Exception):
     pass
 
 
+class BinMedia(falcon.media.base.BinaryBaseHandlerWS):
+    def serialize(self, media):
+        return b'BIN'
+
+    def deserialize(self, payload):
+        return ('bin', bytes(payload))
+
+
 def build(cfg, holder):
     app = falcon.asgi.App(middleware=[WsMiddleware(cfg['mw'], holder)] if cfg['mw'] != 'none' else None)
     app.ws_options.max_receive_queue = cfg['queue']
     app.ws_options.error_close_code = cfg['error_close_code']
+    app.ws_options.media_handlers[falcon.WebSocketPayloadType.BINARY] = BinMedia()
 
     class Res:
         async def on_websocket(self, req, ws):
@@ -585,7 +603,7 @@ def plan(tier, seed):
     if tier == 'quick':
         full = scripts_upto(OPS, 3)
         cfgs = [dict(base, spec=s, queue=q) for s in ('2.0', '2.3') for q in (0, 2)]
-        clients = [('none', 1001), ('t', 1001), ('tb', None)]
+        clients = [('none', 1001), ('t', 1001), ('tb', None), ('t2b2', 1001)]
         for cfg in cfgs:
             for i in range(0, len(full), 400):
                 jobs.append((cfg, full[i:i + 400], clients, [None]))
@@ -604,7 +622,7 @@ def plan(tier, seed):
     else:
         full4 = scripts_upto(CORE_OPS + ['accept_hdr', 'send_text_bytes', 'recv_media'], 4)
         full3 = scripts_upto(OPS, 3)
-        clients = [('none', 1001), ('t', 1001), ('b', 1001), ('tb', None), ('tt', 3000), ('empty', 1001)]
+        clients = [('none', 1001), ('t', 1001), ('b', 1001), ('tb', None), ('tt', 3000), ('empty', 1001), ('b2', 1001), ('t2b2', 1001)]
         for cfg in [dict(base, spec=s, queue=q) for s in ('2.0', '2.1', '2.3', '2.4') for q in (0, 1, 2)]:
             for i in range(0, len(full3), 300):
                 jobs.append((cfg, full3[i:i + 300], clients, [None]))
